@@ -9,6 +9,10 @@ index.  After every transpose, on every world rank: destination prefix vs the ex
 communicators, every step validated by sw_route_ok_b = the hypothesis of c03_route_correct) and vs the
 direct oracle (slice of the global array); replicas pairwise; moving back reproduces the source blocks;
 source untouched when a buffer is given; nProcs / mpiCoords / nDistributedDirections follow the destination.
+The constructor's choice (largest handler, topology, topology axis of every distribution direction) is compared
+with the extracted model sw_ctor on every configuration the constructor accepts.  Failures whose route contains a
+direct transition between two handlers with the same communicators but different distributed dimensions are the
+_compatibleLayout finding (KNOWN_FINDINGS.txt); every other exception / deadlock / wrong block is a violation.
 """
 import json
 import random
@@ -463,8 +467,6 @@ def run():
                               % (layouts, nprocs, got, m),
                               {'kind': 'correspondence', 'theorem': 'sw_ctor (SwapperCtor.v) / c03_ctor_axes',
                                'case': [N, layouts, nprocs, c[3], [], c[5], c[6]]}, no_input=True)
-        elif r[0] == 'ok' or (r[0] == 'rejected' and m != 'none' and r[1].startswith('AssertionError')):
-            pass
     mres = dict(zip(mkeys, core.model_parallel(mlines, timeout=3000)))
     okres = dict(zip([(a, b) for (a, b, _, _, _) in okkeys], core.model_parallel(oklines)))
     okinfo = {(a, b): (x, y, rt) for (a, b, x, y, rt) in okkeys}
